@@ -60,7 +60,10 @@ gen_min(ZCase &c)
   const long double hi = Lim<T>::hi, lo = Lim<T>::lo;
   const long double room = hi - static_cast<long double>(c.n) - 1;  // largest admissible min
   long double m = 0;
-  switch (pick(0, 5)) {
+  switch (pick(0, 6)) {
+    case 6:  // the range straddles the sign boundary of the same-width signed type (or zero for signed types)
+      m = (std::is_signed_v<T> ? 0.0L : (hi + 1) / 2) - static_cast<long double>(pick64(0, c.n));
+      break;
     case 0: m = 0; break;
     case 1: m = 1; break;
     case 2: m = std::is_signed_v<T> ? -static_cast<long double>(pick64(0, 1000)) : static_cast<long double>(pick64(0, 1000)); break;
